@@ -319,13 +319,8 @@ func MergeHeaders(src []*Header) (h *Header, reflinks [][]*Reference, err error)
 			}
 			if r.owner != h {
 				// r was not actually added, so use the ref
-				// that h owns.
-				for _, hr := range h.refs {
-					if equalRefs(r, hr) {
-						r = hr
-						break
-					}
-				}
+				// of that name that h owns.
+				r = h.refs[h.seenRefs[r.name]]
 			}
 			links[id] = r
 		}
